@@ -137,6 +137,12 @@ func worldC11(w *World) {
 	}
 	hsDelay := []time.Duration{0, 0, 30 * time.Millisecond, time.Second}[t.Choice(4, "handshakedelay")]
 	wb.rb.Delay = func(r *http.Request) time.Duration { return hsDelay }
+	// a backend that reads more slowly than the client sends, behind small socket
+	// buffers: accepted client messages pile up in the agent
+	readPause := []time.Duration{0, 0, 0, 200 * time.Millisecond, time.Second}[t.Choice(5, "backendreadpause")]
+	wb.ReadPause = func(string) time.Duration { return readPause }
+	w.K.SendBuf = []int{64 << 10, 64 << 10, 4 << 10}[t.Choice(3, "sendbuf")]
+	closeAtOnce := t.Rare(1, 2, "closeatonce")
 	wb.OnOpen = func(s *wsSession) {
 		var si int
 		if _, err := fmt.Sscanf(s.Path, "/sock%d", &si); err != nil || si < 0 || si >= nSess {
@@ -246,12 +252,20 @@ func worldC11(w *World) {
 				}
 			}()
 			wg.Wait()
-			// let the last client messages reach the backend, then close
-			time.Sleep(2 * time.Second)
+			// the close follows the last accepted data post (at once, or a little later)
+			if !closeAtOnce {
+				time.Sleep(2 * time.Second)
+			} else if readPause > 0 && len(ss.cmsgs) > 11 {
+				w.Probe("close_behind_backlog")
+			}
 			if st, err := sc.close(rep.ID); err != nil || (st != 200 && !(ss.backendCloses && st == 400)) {
 				problem("close: status %d err %v", st, err)
 			}
 			time.Sleep(ss.afterClose)
+			if readPause > 0 {
+				// a slow backend needs time to read what was accepted before the close
+				time.Sleep(time.Duration(len(ss.cmsgs)+2) * readPause)
+			}
 		}
 	}
 	for b := 0; b < nBrowsers; b++ {
